@@ -30,13 +30,22 @@ class C10(Prop):
     gen = ["tables"]
     theorems = [
         "Stgutg.Props.C10.step_recovers",
-        "Stgutg.Props.C10.history_recovers",
         "Stgutg.Props.C10.count_estimate",
+        "Stgutg.Props.C10.history_recovers",
+        "Stgutg.Props.C10.history_recovers_lists",
         "Stgutg.Props.C10.new_context_resets",
         "Stgutg.Props.C10.get_nas_pdu",
         "Stgutg.Props.C10.statement_fails_before_F7_fix",
+        "Stgutg.Proofs.NasProtect.cryptoPrims_ok",
     ]
     domains = [Domain("sec-dl", 2000, 100000)]
+    level_text = ("Lean theorems by induction over arbitrary downlink histories of the specification's AMF (header types 0..4, "
+                  "new-context restarts, up to 254 undelivered messages between deliveries, any number of SQN and 2^24 wraps, "
+                  "{NIA1,NIA2}x{NEA0,NEA1,NEA2}, every stored counter word): the model of NASDecode/GetNasPdu hands exactly the plain "
+                  "message to the plain decoder and its DL COUNT equals the COUNT the AMF used for that message; parametric in "
+                  "AES-CTR/CMAC (CTR as keystream cipher: hypothesis, proved for the executable instance); model tied to "
+                  "tglib/security.go, decode.go, counter.go by differential runs with an independent reference sender re-checked by "
+                  "the Lean specification receiver; F7 found by the check, repaired in /repo, witness kept as refuted statement + corpus replay")
     rule = ("sec-dl: one case = one downlink history (<= 40 steps) through the real tglib.NASDecode / tglib.GetNasPdu on one "
             "RanUeContext. The protected messages come from a reference sender written in the harness (header types 0..4, "
             "new-context restarts, 0..254 undelivered messages between deliveries, UE starting in step at 0, 250..260, 65530.., "
